@@ -3,5 +3,5 @@ From V.lib Require Import Base.
 From V.c01 Require Import C01Codec C01Model.
 Require Import ExtrOcamlBasic.
 Separate Extraction
-  decode size_box encode_w encode_sw raw_box exact_box box_name leaf_table cont_table dflt_rsv
+  decode size_box encode_w encode_sw raw_box exact_box box_name leaf_table cont_table pre_table rsv_dc why_box decode_file encode_seq dflt_rsv
   hdr_size_field lenN bytes_eqb Z.of_N.
